@@ -733,8 +733,11 @@ pub fn c09_strategy(_ctx: &Ctx, for_c05: bool) -> BoxedStrategy<C09Case> {
   // C09 only: the subscriber's n-th callback (on the scheduler's thread) pushes one more item
   // into the hot source - an emission from the worker itself must be queued like any other
   let reentrant = prop::option::weighted(if for_c05 { 0.0001 } else { 0.25 }, 0usize..3);
-  (pre, sched_ops, post, 0usize..=6, 0u8..=2, any::<bool>(), prop::option::weighted(if for_c05 { 0.97 } else { 0.35 }, 0u8..=3), sched_strategy(), reentrant)
-    .prop_map(move |(pre, mid, post, len, ending, hot, unsub, sched, reentrant)| {
+  // the subscriber unsubscribes from inside its n-th callback - on the scheduler's own thread
+  // when the pipeline ends in observe_on (the worker then aborts its own scheduler)
+  let self_unsub = prop::option::weighted(0.15, 0usize..3);
+  (pre, sched_ops, post, 0usize..=6, 0u8..=2, any::<bool>(), prop::option::weighted(if for_c05 { 0.97 } else { 0.35 }, 0u8..=3), sched_strategy(), reentrant, self_unsub)
+    .prop_map(move |(pre, mid, post, len, ending, hot, unsub, sched, reentrant, self_unsub)| {
       let subscribe_on = mid.contains(&Op::SubscribeOnNew);
       let reentrant = if hot && !subscribe_on && !for_c05 { reentrant } else { None };
       let order_free = |op: &Op| matches!(op, Op::Map(_) | Op::Filter(_));
@@ -780,10 +783,12 @@ pub fn c09_strategy(_ctx: &Ctx, for_c05: bool) -> BoxedStrategy<C09Case> {
       }
       // C09 only: the same observable value is subscribed a second time (synchronous
       // sources; each subscription has its own scheduler and must receive everything)
-      let second = !for_c05 && !hot && unsub.is_none() && reentrant.is_none() && len % 3 == 0;
-      let mut recorders = vec![match reentrant {
-        Some(at) => vec![Reaction { at, what: React::Emit(0, Ev::N(REENTRANT_ITEM)) }],
-        None => vec![],
+      let self_unsub = if reentrant.is_none() { self_unsub } else { None };
+      let second = !for_c05 && !hot && unsub.is_none() && reentrant.is_none() && self_unsub.is_none() && len % 3 == 0;
+      let mut recorders = vec![match (reentrant, self_unsub) {
+        (Some(at), _) => vec![Reaction { at, what: React::Emit(0, Ev::N(REENTRANT_ITEM)) }],
+        (None, Some(at)) => vec![Reaction { at, what: React::UnsubSelf }],
+        _ => vec![],
       }];
       let mut actions = vec![Action::Subscribe(0)];
       if second {
@@ -797,7 +802,7 @@ pub fn c09_strategy(_ctx: &Ctx, for_c05: bool) -> BoxedStrategy<C09Case> {
         recorders,
         actions,
       };
-      C09Case { cc: ConcCase { case, threads, sched }, script, hot, has_unsub: unsub.is_some(), subscribe_on }
+      C09Case { cc: ConcCase { case, threads, sched }, script, hot, has_unsub: unsub.is_some() || self_unsub.is_some(), subscribe_on }
     })
     .boxed()
 }
@@ -822,6 +827,16 @@ fn c09_expected(c: &C09Case) -> Option<Vec<Rk>> {
 
 fn c09_check_impl(c: &C09Case, c05_only: bool) -> Report {
   let r = run_cc(&c.cc, 5_000);
+  if std::env::var("ARXV_DEBUG_LOG").is_ok() {
+    eprintln!("unsub_marks={:?}\nfired={:?} skipped={:?}\nsub_marks={:?}", r.log.unsub_marks, r.log.reactions_fired, r.log.reactions_skipped, r.log.sub_marks);
+    for e in &r.log.recs[0] {
+      eprintln!("  rec {:?} tid={} start={} end={}", e.k, e.tid, e.start, e.end);
+    }
+    for m in &r.log.call_marks {
+      eprintln!("  call {:?} tid={} {}..{}", m.action, m.tid, m.call, m.ret);
+    }
+    eprintln!("spans={:?}", r.log.cb_spans);
+  }
   let mut rep = Report::ok();
   rep.classes = super::seq_inv::op_classes(&c.cc.case);
   rep.classes.push(if c.hot { "source:emitter-thread".into() } else { "source:synchronous".into() });
@@ -884,7 +899,10 @@ fn c09_check_impl(c: &C09Case, c05_only: bool) -> Report {
     let evs = ordered(&r.log.recs[k]);
     let got: Vec<Rk> = evs.iter().map(|e| e.k.clone()).collect();
     let fail = |m: String| Some(format!("recorder {}: {} | {}", k, m, render_cc(&c.cc, &r)));
-    let reentrant = !c.cc.case.recorders[0].is_empty();
+    let reentrant = c.cc.case.recorders[0].iter().any(|x| matches!(x.what, React::Emit(_, _)));
+    if c.cc.case.recorders[0].iter().any(|x| matches!(x.what, React::UnsubSelf)) {
+      rep.classes.push("unsubscribe-from-inside-a-callback".into());
+    }
     if reentrant {
       // the script's items in order, and the item pushed from the callback exactly once, at
       // whatever place the queue gave it
